@@ -26,6 +26,7 @@ import json
 import os
 import random as pyrandom
 import re
+import time
 from fractions import Fraction as F
 
 from . import core
@@ -107,6 +108,8 @@ FIXED = {
     "eta-zero": spec(F(1, 2), F(4, 5), F(0), F(9, 10), INDIST),           # everything lost
     "no-loss-g2": spec(F(1), F(3, 5), F(1), F(1, 2), INDIST),             # p0 = 0, p21 = 0
     "r-zero": spec(F(3, 4), F(9, 10), F(9, 10), F(0), DIST),              # I = 0
+    "loss-only": spec(F(1), F(1), F(3, 4), F(1), DIST),                   # only the transmittance is imperfect
+    "r-zero-indist": spec(F(1), F(4, 5), F(1, 2), F(0), INDIST),          # I = 0, g2 > 0, loss
 }
 
 
@@ -358,11 +361,34 @@ def judge_gen(chk, case):
     try:
         if via_proc:
             d = derived(P)
-            proc = pcvl.Processor("SLOS", len(ns), noise=pcvl.NoiseModel(
+            noise = pcvl.NoiseModel(
                 brightness=float(d["beta"]), indistinguishability=float(d["ind"]), g2=float(d["g2"]),
-                g2_distinguishable=(d["model"] == DIST), transmittance=float(d["eta"])))
-            proc.with_input(BasicState(ns))
+                g2_distinguishable=(d["model"] == DIST), transmittance=float(d["eta"]))
+            order = case.get("order", "ctor")
             t = 0
+            if order == "ctor":              # noise given to the constructor, then the input
+                proc = pcvl.Processor("SLOS", len(ns), noise=noise)
+                proc.with_input(BasicState(ns))
+            elif order == "noise-after":     # input first (perfect source), distribution read, THEN the noise
+                proc = pcvl.Processor("SLOS", len(ns))
+                proc.with_input(BasicState(ns))
+                _ = proc.source_distribution
+                proc.noise = noise
+            elif order == "renoise":         # another noise model first, distribution read, then the real one
+                proc = pcvl.Processor("SLOS", len(ns), noise=pcvl.NoiseModel(brightness=0.5, g2=0.1,
+                                                                             indistinguishability=0.5))
+                proc.with_input(BasicState(ns))
+                _ = proc.source_distribution
+                proc.noise = noise
+            elif order == "reinput":         # same source used for another input before
+                proc = pcvl.Processor("SLOS", len(ns), noise=noise)
+                other = [1] + [0] * (len(ns) - 1)
+                proc.with_input(BasicState(other))
+                _ = proc.source_distribution
+                t = proc.source.get_tag("discernability_tag")
+                proc.with_input(BasicState(ns))
+            else:
+                raise ValueError("unknown order " + order)
             svd = proc.source_distribution
         else:
             src = mk_source(P)
@@ -530,6 +556,12 @@ def judge_samples(chk, case):
     try:
         src = mk_source(P)
         advance(src, case.get("pre", 0))
+        prior = case.get("prior")
+        if prior:          # an earlier, different request on the same object (the event table is cached)
+            if prior.get("cache"):
+                src.cache_prob_table(sum(prior["ns"]), prior["f"])
+            else:
+                src.generate_samples(25, BasicState(prior["ns"]), prior["f"])
         samples = src.generate_samples(n, BasicState(ns), f) if f else src.generate_samples(n, BasicState(ns))
         modes = [bs_modes(s) for s in samples]
     except Exception as e:  # noqa
@@ -618,6 +650,10 @@ def simpler(case):
         yield {**c, "f": c["f"] - 1}
     if c.get("pre"):
         yield {**c, "pre": 0}
+    if c.get("prior"):
+        yield {k: v for k, v in c.items() if k != "prior"}
+    if c.get("order", "ctor") != "ctor":
+        yield {**c, "order": "ctor"}
     if c.get("thr") is not None and c["kind"] != "bad":
         yield {**c, "thr": None}
     P = c["P"]
@@ -681,6 +717,8 @@ def handle(chk, case):
             chk.branch("g2-loss-hom-together")
         if d["eta"] == 0:
             chk.branch("eta-zero")
+        if d["beta"] == 1 and d["g2"] == 0 and d["ind"] == 1 and 0 < d["eta"] < 1:
+            chk.branch("loss-only")
         if case.get("pre"):
             chk.branch("tag-offset")
         if case.get("thr") is not None and F(case["thr"]) > 0:
@@ -698,16 +736,23 @@ def handle(chk, case):
                 chk.branch("table-range-quirk")
         if kind == "samples":
             chk.branch("samples-filter" if case["f"] else "samples-nofilter")
+            if case.get("prior") and case["f"]:
+                chk.branch("samples-after-other-request")
         if kind == "proc":
             chk.branch("proc")
+            chk.branch("proc-" + case.get("order", "ctor"))
+            chk.count("proc_order", case.get("order", "ctor"))
     else:
         chk.branch("rejected-stream")
+    t0 = time.perf_counter()
     res = judge(chk, case)
+    secs = chk.extra.setdefault("seconds_by_kind", {})
+    secs[kind] = round(secs.get(kind, 0.0) + time.perf_counter() - t0, 3)
     sig = (kind, json.dumps(P, sort_keys=True), tuple(case.get("ns", [])), case.get("n"), case.get("f"),
-           case.get("thr"), case.get("pre", 0))
+           case.get("thr"), case.get("pre", 0), case.get("order"), json.dumps(case.get("prior"), sort_keys=True))
     nontrivial = kind != "bad" and not classify(P)[0] and (sum(case.get("ns", [])) + case.get("n", 0) > 0)
     chk.case(sig, nontrivial=nontrivial,
-             sample={k: case[k] for k in ("kind", "P", "ns", "n", "f", "thr") if k in case})
+             sample={k: case[k] for k in ("kind", "P", "ns", "n", "f", "thr", "order", "prior") if k in case})
     if res is not None:
         kind_, sg, what, _ = res
         small = shrink(chk, case, sg)
@@ -731,8 +776,10 @@ def run(chk: core.Check):
     chk.rule = ("settings = (kind of observation, rational parameter tuple (brightness, q=sqrt(1-2*b*g2), "
                 "transmittance, r=sqrt(indistinguishability), multiphoton model), expected input / n / filter / "
                 "explicit threshold / tag-counter offset); kinds: generate_distribution, "
-                "Processor.source_distribution, probability_distribution, _compute_prob_table/cache_prob_table, "
-                "generate_samples (goodness-of-fit TEST at false-alarm level 1e-9, not a proof), constructor "
+                "Processor.source_distribution (noise in the constructor / set after the input / replaced / input "
+                "replaced), probability_distribution, _compute_prob_table/cache_prob_table, "
+                "generate_samples (goodness-of-fit TEST at false-alarm level 1e-9, not a proof; two thirds of the "
+                "filtered requests follow a different request on the same Source object), constructor "
                 "rejections; fixed parameter classes x ALL inputs with <=3 modes and 0..2 (thorough 0..3) photons "
                 "per mode, plus random tuples; distinct = distinct settings; non-trivial = imperfect source and at "
                 "least one requested photon")
@@ -748,7 +795,9 @@ def run(chk: core.Check):
     chk.required_branches = ["pd-dist", "pd-indist", "nonpd-g2", "nonpd-plain", "perfect", "g2-loss-hom-together",
                              "eta-zero", "tag-offset", "thr-explicit", "trim-active", "single-mode-shortcut",
                              "zero-photon-mode", "table-filter", "table-nofilter", "table-range-quirk",
-                             "table-zero-perf", "samples-filter", "samples-nofilter", "proc", "rejected-stream"]
+                             "table-zero-perf", "samples-filter", "samples-nofilter", "samples-after-other-request", "proc",
+                             "proc-ctor", "proc-noise-after", "proc-renoise", "proc-reinput", "loss-only",
+                             "rejected-stream"]
     chk.lean = core.LeanDriver("C06")
     rng = chk.rng
 
@@ -760,15 +809,15 @@ def run(chk: core.Check):
     per_mode = chk.pick(2, 3)
     for name, P in FIXED.items():
         _, pd = classify(P)
-        cap = chk.pick(6, 7) if pd else 9
+        cap = 6 if pd else 9
         for ns in all_inputs(3, per_mode, cap):
             cases.append({"kind": "gen", "P": P, "ns": ns})
     # 2. random tuples, random inputs, explicit thresholds, tag offsets, deeper inputs (trimming active)
-    for _ in range(chk.pick(70, 1500)):
+    for _ in range(chk.pick(70, 1300)):
         P = rand_params(rng)
         _, pd = classify(P)
         m = rng.randint(1, 3)
-        cap = chk.pick(5, 7) if pd else 8
+        cap = chk.pick(5, 6) if pd else 8
         ns = [rng.randint(0, 3) for _ in range(m)]
         while sum(ns) > cap:
             ns[rng.randrange(m)] = 0
@@ -780,13 +829,14 @@ def run(chk: core.Check):
         for ns in ([3, 3], [2, 2, 2], [3, 2, 1]):
             cases.append({"kind": "gen", "P": P, "ns": ns})
     # 3. Processor.source_distribution (from_noise_model)
-    for _ in range(chk.pick(25, 300)):
+    for ip in range(chk.pick(30, 300)):
         P = rng.choice(list(FIXED.values())) if rng.random() < 0.4 else rand_params(rng)
         m = rng.randint(1, 3)
         ns = [rng.randint(0, 2) for _ in range(m)]
         while sum(ns) > 5:
             ns[rng.randrange(m)] = 0
-        cases.append({"kind": "proc", "P": P, "ns": ns})
+        cases.append({"kind": "proc", "P": P, "ns": ns,
+                      "order": ["ctor", "noise-after", "ctor", "renoise", "reinput"][ip % 5]})
     # 4. probability_distribution
     for _ in range(chk.pick(40, 600)):
         P = rng.choice(list(FIXED.values())) if rng.random() < 0.4 else rand_params(rng)
@@ -804,7 +854,8 @@ def run(chk: core.Check):
     # 7. sampler, goodness-of-fit TEST
     nsamp = chk.pick(40000, 200000)
     names = ["pd-dist", "pd-indist", "nonpd-g2", "pd-dist-I1", "no-loss-g2", "perfect"]
-    sample_params = [FIXED[k] for k in names] + [rand_params(rng) for _ in range(chk.pick(2, 14))]
+    sample_params = [FIXED[k] for k in names] + [rand_params(rng) for _ in range(chk.pick(2, 9))]
+    nfilt = 0
     for P in sample_params:
         for f in (0, rng.choice([1, 2, 3])):
             ns = rng.choice([[1, 1], [2, 1], [1, 0, 1], [2], [1, 1, 1], [2, 2]])
@@ -813,8 +864,16 @@ def run(chk: core.Check):
             d = derived(P)
             if f and d["eta"] * d["beta"] == 0:
                 continue
-            cases.append({"kind": "samples", "P": P, "ns": ns, "f": f, "N": nsamp,
-                          "seed": rng.randrange(1 << 30), "pre": rng.choice([0, 1])})
+            case = {"kind": "samples", "P": P, "ns": ns, "f": f, "N": nsamp,
+                    "seed": rng.randrange(1 << 30), "pre": rng.choice([0, 1])}
+            nfilt += 1 if f else 0
+            if f and nfilt % 3 != 0:
+                # same photon number with another filter, or another photon number with the same filter
+                if rng.random() < 0.5:
+                    case["prior"] = {"ns": ns, "f": f - 1 if f > 1 else f + 1, "cache": rng.random() < 0.3}
+                else:
+                    case["prior"] = {"ns": ns + [1], "f": f, "cache": rng.random() < 0.3}
+            cases.append(case)
     for case in cases:
         handle(chk, case)
     chk.extra["gof_false_alarm_level"] = ALPHA
